@@ -282,6 +282,7 @@ func opScanBlock(_ *HState, a Event) Event {
 	}
 	items := filterItems(a, txs)
 	blk := wire.NewMsgBlock(wire.NewBlockHeader(1, &chainhash.Hash{9}, &chainhash.Hash{}, 0x1d00ffff, uint32(gInt(a, "salt"))))
+	blk.Header.Timestamp = time.Unix(1600000000+int64(gInt(a, "salt")%100000), 0) // not the clock: the call is a function of its arguments
 	var facts []interface{}
 	for _, i := range order {
 		blk.AddTransaction(txs[i])
@@ -461,6 +462,7 @@ func twoSpenderScans(c *Ctx, rounds int) {
 // C11F: the filter-induced index lists of the two proof builders (reported2 / reported3 of a ScanBlock event) on
 // blocks with intra-block spends -- the part of C11 that is about WHICH transactions a filter selects.
 func runC11F(c *Ctx) {
+	c.Conc = true // block scans are stateless calls: replayed in other orders and from 8 goroutines at once
 	c.Batch = 10
 	twoSpenderScans(c, c.Pick(8, 60))
 	r := c.Rng
@@ -479,6 +481,7 @@ func runC11F(c *Ctx) {
 }
 
 func runC10(c *Ctx) {
+	c.Conc = true // block scans are stateless calls: replayed in other orders and from 8 goroutines at once
 	c.DeferredOp = "BloomObserve"
 	r := c.Rng
 	// single transactions against a filter: result and post-state exact
